@@ -147,6 +147,44 @@ func CmpEdges(fn *ssa.Function, a, b VM, want Rel) []Edge {
 	return out
 }
 
+// CmpRels returns, for every If in fn whose condition compares a value matching a with one matching b, the exact relation
+// "a rel b" that holds on the true edge.
+func CmpRels(fn *ssa.Function, a, b VM) []Rel {
+	var out []Rel
+	for _, blk := range fn.Blocks {
+		iff, ok := lastIf(blk)
+		if !ok {
+			continue
+		}
+		cond, neg := CondPolarity(iff.Cond)
+		bo, ok := cond.(*ssa.BinOp)
+		if !ok {
+			continue
+		}
+		r, ok := relOfOp(bo.Op)
+		if !ok {
+			continue
+		}
+		if a(bo.X) && b(bo.Y) {
+			if neg {
+				out = append(out, r.neg())
+			} else {
+				out = append(out, r)
+			}
+		} else if a(bo.Y) && b(bo.X) {
+			if neg {
+				out = append(out, r.swap().neg())
+			} else {
+				out = append(out, r.swap())
+			}
+		}
+	}
+	return out
+}
+
+// Neg returns the complementary relation.
+func (r Rel) Neg() Rel { return r.neg() }
+
 // BoolEdges returns the edges on which a boolean condition matching m has value pol.
 func BoolEdges(fn *ssa.Function, m VM, pol bool) []Edge {
 	var out []Edge
